@@ -249,7 +249,7 @@ func c17(r *hx.Run) {
 	origins := []string{"http://127.0.0.1:3001", "http://127.0.0.1:3002"}
 	ports := []int{18081, 18082, 18083}
 	// ---- (1) validate
-	nv := r.Pick(3000, 100000)
+	nv := r.Pick(3000, 400000)
 	for i := 0; i < nv && !r.TooMany(); i++ {
 		cfg := c17ValidConfig(rnd, origins, ports, i%2 == 0)
 		r.Eval(1)
@@ -286,7 +286,7 @@ func c17(r *hx.Run) {
 		r.Inconclusive("cannot init file client: " + err.Error())
 		return
 	}
-	nr := r.Pick(1000, 30000)
+	nr := r.Pick(1000, 100000)
 	for i := 0; i < nr && !r.TooMany(); i++ {
 		cfg := c17ValidConfig(rnd, origins, ports, true)
 		want := normCfg(cfg)
@@ -320,7 +320,7 @@ func c17(r *hx.Run) {
 		r.Inconclusive("cannot build pike")
 		return
 	}
-	na := r.Pick(24, 400)
+	na := r.Pick(24, 1000)
 	sem := make(chan struct{}, 8)
 	var wg sync.WaitGroup
 	seeds := make([]int64, na)
